@@ -35,6 +35,8 @@ CLAIMED["C09"] = ("invariant monitor: lanczos_tridiag driven directly on symmetr
                   "runtime monitoring: algebraic invariants of the returned Lanczos factors with hook-enforced step bound")
 CLAIMED["C10"] = ("hook-trace invariant monitor: pivoted_cholesky (on dense PSD families and on every PD operator class) with the pchol.iter events (pivot, pivot value, internal residual diagonal, permutation, error measure per step) checked against the densely recomputed residuals R_j: PSD residual, vanishing pivot rows, greedy argmax pivots, non-increasing trace, exactness at full rank, internal diagonal = diag(R_j), early stop only below tolerance, pivots a permutation; the (K + D) preconditioner closure / operator / log-determinant against L L^T + D",
                   "runtime monitoring: per-step hook trace checked against dense residual recomputation")
+CLAIMED["C11"] = ("hook-trace invariant monitor for MINRES (true residual of every shifted system non-increasing along the minres.iter trace, Krylov-optimal residual against an independent float64 Arnoldi least-squares problem where decidable, consistent stop, zero columns, scaling, additivity, output shapes, step bound) plus reference-model checks of contour_integral_quad and sqrt_inv_matmul (with / without left factor, method and function spelling) against the dense symmetric matrix root",
+                  "runtime monitoring: per-iteration hook trace invariants and dense matrix-root reference")
 PENDING = {}
 def main():
     hooks_commits = []
